@@ -14,7 +14,8 @@ EXTRA = {"C01-A": ["C15"], "C03-B": ["C11"], "C15-A": ["C01"], "C16-B": ["C03", 
          "C06-L": ["C13", "C18"], "C01-T": ["C15"], "C11-S": ["C03"], "C04-T": ["C10"], "C07-S": ["C06"], "C14-S": ["C07"], "C04-Q": ["C10"], "C06-Q": ["C13", "C18"], "C11-Q": ["C03"], "C04-R": ["C07"],
          "C03-R": ["C11"], "C16-R": ["C03"], "C04-P": ["C10"], "C15-P": ["C07"], "C06-O": ["C07", "C15"], "C10-P": ["C04"],
          "C16-O": ["C03", "C11"], "C16-P": ["C13"], "C11-O": ["C03"], "C01-O": ["C15"], "C01-P": ["C15"], "C14-M": ["C04", "C07"], "C14-N": ["C04"], "C03-N": ["C11"], "C16-M": ["C03"],
-         "C06-M": ["C07"], "C03-M": ["C12"], "C11-N": ["C03"], "C06-K": ["C07"], "C16-L": ["C13"], "C13-K": ["C03"], "C18-K": ["C13"]}
+         "C06-M": ["C07"], "C03-M": ["C12"], "C11-N": ["C03"], "C06-K": ["C07"], "C16-L": ["C13"], "C13-K": ["C03"], "C18-K": ["C13"],
+         "C04-U": ["C10"], "C16-V": ["C11"], "C12-U": ["C03"], "C07-U": ["C14"], "C10-V": ["C04"], "C11-U": ["C03"], "C06-U": ["C13"], "C04-V": ["C10"]}
 ids = sys.argv[1:] or sorted(d for d in os.listdir(os.path.join(HERE, "seeded"))
                              if os.path.isdir(os.path.join(HERE, "seeded", d)))
 rows = []
